@@ -35,7 +35,7 @@ import (
 // Not decided: every numeric bound of the statement.
 func init() {
 	register("C34", func(r *Report) {
-		r.Explanation = "Structural necessary conditions of the reaping bound (the bound itself - connect timeout, 1.5x keep-alive, sleep duration + 1.5x keep-alive - is a property of timed histories under an assumption about the broker and is NOT decided): (R1) every call site that hands a packet to the MQTT sender is reachable only from the MQTT-SN receive loop (caused by a client packet), the MQTT receive loop (caused by a broker packet), a RetryTransaction retry callback (bounded by the retry budget) or the sleep pinger: the gateway never talks to the broker on its own, so a silent client means a silent broker connection, which the assumed broker then drops; (R2) the sleep pinger is bounded: armed by DISCONNECT(duration) only, stopped by its own stop function after exactly the announced duration, leaves on its context (C12's timer and pinger-body rules, re-run here); (R3) the MQTT CONNECT carries the client's keep-alive and a zero keep-alive is refused without starting an exchange (C09-R2/R3, re-run here); (R4) a read error or EOF on the broker connection ends the session, the broker connection is closed on every exit, and the connect exchange is reaped by its timer on every path (C13-R3, C10, re-run here)."
+		r.Explanation = "Structural necessary conditions of the reaping bound (the bound itself - connect timeout, 1.5x keep-alive, sleep duration + 1.5x keep-alive - is a property of timed histories under an assumption about the broker and is NOT decided): (R1) every call site that hands a packet to the MQTT sender is reachable only from the MQTT-SN receive loop (caused by a client packet), the MQTT receive loop (caused by a broker packet), a RetryTransaction retry callback (bounded by the retry budget) or the sleep pinger: the gateway never talks to the broker on its own, so a silent client means a silent broker connection, which the assumed broker then drops; (R2) the sleep pinger is bounded: armed by DISCONNECT(duration) only, stopped by its own stop function after exactly the announced duration, leaves on its context (C12's timer and pinger-body rules, re-run here); (R3) the MQTT CONNECT carries the client's keep-alive and a zero keep-alive is refused without starting an exchange (C09-R2/R3, re-run here); (R4) a read error or EOF on the broker connection ends the session, the session end always cancels the read of the client connection (C13-R6), the broker connection is closed on every exit, and the connect exchange is reaped by its timer on every path (C13-R3, C10, re-run here)."
 		r.floor("R1", 5)
 		r.floor("R2", 2)
 		r.floor("R3", 3)
@@ -106,7 +106,7 @@ func checkC34(c *Ctx, r *Report) {
 		return strings.Contains(key, "Keepalive") || strings.Contains(key, "zero-keepalive")
 	})
 	// R4
-	importRulesF(c, r, "C13", map[string]string{"R3": "R4"}, nil)
+	importRulesF(c, r, "C13", map[string]string{"R3": "R4", "R6": "R4"}, nil)
 	importRulesF(c, r, "C10", map[string]string{"R1": "R4", "R2": "R4", "R3": "R4", "R4": "R4", "R5": "R4"}, nil)
 }
 
